@@ -128,7 +128,7 @@ def rule_r1(chk):
         got = fin.run_function(gp, {params(gp)[1]: (8, 9, 10, 12, 14, 15, 16)}, funcs=funcs, env=env)
         want = (None, None, 0, 2, 4, None, None)
         chk.ob("C07-R1", "plans.simulation_plans.SimulationPlan._get_per_indexes[start..end inclusive]", tuple(got) == want,
-               f"plan 10..14, periods 8,9,10,12,14,15,16 -> columns {tuple(got)} (want {want})", m.loc(isin))
+               f"plan 10..14, periods 8,9,10,12,14,15,16 -> columns {tuple(got)} (want {want})", m.loc(isin), sure=True)
     except fin.NotFinite as ex:
         chk.undecided("C07-R1", "plans.simulation_plans.SimulationPlan._get_per_indexes[start..end inclusive]", f"not evaluable: {ex}", m.loc(gp))
 
@@ -431,11 +431,46 @@ def rule_r4(chk):
                    f"enumerates the endogenized anticipated shocks {o}; the columns of R (_generate_R) are {ref}", m.loc(n))
 
 
+def rule_r5(chk, rid="C07-R5"):
+    chk.rule(rid, "the targets of exogenized points are the USER'S inputs: Inlay.simulate snapshots the variant's data (a copy) before the "
+             "first call that may write into it (simulate_initial_guess, simulate_frame, write-back of frames), hands that snapshot to "
+             "every frame as input_data_array, and never rebinds it inside the frame loop", floor=3, shape_independent=True)
+    sm = chk.repo.mod("irispie.simultaneous._simulate")
+    f = sm.func("Inlay.simulate")
+    chk.saw(sm, "Inlay.simulate")
+    from ..variants import variant_loops
+    loops = variant_loops(f)
+    if not loops:
+        raise AnalysisError("anchor vanished: per-variant loop in Inlay.simulate")
+    lp, conts = loops[0]
+    dsv = next((v for c, v in conts.items() if "slate" in c or "slate" in v), None)
+    snaps = [n for n in ast.walk(lp) if isinstance(n, ast.Assign) and isinstance(n.targets[0], ast.Name) and isinstance(n.value, ast.Call)
+             and squash(n.value).startswith(f"{dsv}.get_data_variant(")]
+    passed = [k.value for c in ast.walk(lp) if isinstance(c, ast.Call) for k in c.keywords if k.arg == "input_data_array"]
+    if not snaps or not passed or dsv is None:
+        chk.undecided(rid, "simultaneous._simulate.Inlay.simulate[input snapshot]", "snapshot of the variant's data not recognised", sm.loc(lp))
+        return
+    snap = snaps[0]
+    nm = snap.targets[0].id
+    is_copy = squash(snap.value).endswith(".copy()")
+    chk.ob(rid, "simultaneous._simulate.Inlay.simulate[snapshot is a copy]", is_copy, f"{unparse(snap)[:80]}", sm.loc(snap), sure=True)
+    writers = [c for c in ast.walk(lp) if isinstance(c, ast.Call) and isinstance(c.func, ast.Attribute) and
+               (c.func.attr in ("simulate_initial_guess", "simulate_frame", "write_frame_data_to_main_dataslate") or c.func.attr.startswith("simulate"))]
+    early = [c for c in writers if c.lineno < snap.lineno]
+    chk.ob(rid, "simultaneous._simulate.Inlay.simulate[snapshot precedes every writer]", not early,
+           f"snapshot at line {snap.lineno}; first simulating call at line {min(c.lineno for c in writers) if writers else None}" if not early else
+           f"{unparse(early[0].func)} (line {early[0].lineno}) runs before the snapshot (line {snap.lineno}): exogenized points are then restored from "
+           "simulated values, not from the user's inputs", sm.loc(snap), sure=True)
+    ok = all(isinstance(v, ast.Name) and v.id == nm for v in passed) and len([n for n in ast.walk(lp) if isinstance(n, ast.Assign) and unparse(n.targets[0]) == nm]) == 1
+    chk.ob(rid, "simultaneous._simulate.Inlay.simulate[every frame gets the snapshot]", ok, f"input_data_array={[unparse(v) for v in passed]}", sm.loc(lp), sure=True)
+
+
 def run(chk):
     chk.guard(rule_r1, chk)
     chk.guard(rule_r2, chk)
     chk.guard(rule_r3, chk)
     chk.guard(rule_r4, chk)
+    chk.guard(rule_r5, chk)
     from .. import args as _args
     chk.guard(_args.apply, chk, "C07-R90", {'fords', 'plans', 'stacked_time'}, 1)
     chk.assumptions = [
